@@ -18,6 +18,12 @@ kind, through the same command and oracle; every spelling is a number, so a refu
 written) is a violation, and acceptance must not depend on the list.  Part 'direction-fn':
 get_direction_from_bias_ratio called directly with float/numpy/math infinities and int/float/numpy scalars.
 
+Every invocation is also judged at the level of the written specification (nothing built): each ranges block
+lists exactly the requested sizes and decoder parameters that are constructor arguments of the decoder class
+(inspect.signature) and equal the defaults documented for that class only.  Part 'sizes': size lists with
+multi-digit components (10, 12, 100) mixed with single-digit ones, 2-D and 3-D, read back with a lazily built
+decoder.  Part 'decoders': every registered decoder on the smallest code it allows, read back and constructed.
+
 Part 'range': `panqec.cli.read_range_input` on every (min, max, step) of a decimal grid
 (and the comma-list / single-value forms), compared with the exact decimal progression.
 """
@@ -68,6 +74,8 @@ RULE = ('part generate: complete product of (code class, size list, compatible d
         'paired with every spelling of the other kind in both orders, x bias (x method); non-trivial when the list '
         'holds an infinite or alternatively spelled ratio and was accepted; part direction-fn: every listed scalar x '
         'bias, non-trivial when the scalar is infinite or not a plain float. '
+        'part sizes: every size list of SIZE_LISTS x eta x method, non-trivial when files were written; part decoders: '
+        'every registered decoder on its smallest allowed code x eta x prob x method. '
         'part range: all (min, max, step) with min, max multiples of step, 0 <= min < max <= 0.6, plus comma-list and '
         'single-value forms; one evaluation = one read_range_input call; non-trivial when the binary accumulation '
         'float(min) + n*float(step) does not land exactly on float(max) (the endpoint decision is then rounding '
@@ -126,6 +134,30 @@ ETA_SPELLINGS = {
     '3': ['3', '3.0', '3e0', '+3', ' 3', '3 ', '03', '3.', '30e-1'],
     '2.5': ['2.5', '2.50', '+2.5', '25e-1', ' 2.5', '.25e1'],
 }
+# part 'sizes': size lists with multi-digit components, mixed with single-digit ones.  Judged at the level of
+# the written specification (L_x/L_y/L_z of every listed size) and, through the real reader with a decoder that
+# is cheap to construct, as simulations whose code.size is the request; the noise model is not evaluated on
+# these codes (light), so nothing large is ever built.
+SIZE_LISTS = {
+    'Toric2DCode': ['10', '4x10', '10x4', '12x12', '3x12', '100', '3x100', '100x100', '3,10', '10,3x5', '4x10,3',
+                    '9x9,10x10,11x11', '5x5,100x3'],
+    'Toric3DCode': ['10', '2x3x10', '10x2x3', '2x10x3', '12x12x12', '3x12', '100x2x2', '2x3x4,10x10x10', '10,3',
+                    '3x5,4x10x2', '2x2x2,100x100x100'],
+}
+SIZES_DECODER = 'BeliefPropagationOSDDecoder'
+SIZES_ETAS = ['0.5', '0.5,10']
+# part 'decoders': every registered decoder on the smallest code it allows: the written decoder parameters
+# must be constructor arguments of that class, equal the defaults generate-input documents for that class, and
+# the real reader must construct the decoder from them
+DECODER_SMALLEST = {
+    'MatchingDecoder': ('Toric2DCode', '2x2'), 'UnionFindDecoder': ('Toric2DCode', '2x2'),
+    'BeliefPropagationOSDDecoder': ('Toric2DCode', '2x2'), 'MemoryBeliefPropagationDecoder': ('Toric2DCode', '2x2'),
+    'SweepMatchDecoder': ('Toric3DCode', '2x2x2'), 'RotatedSweepMatchDecoder': ('RotatedPlanar3DCode', '2x2x2'),
+    'XCubeMatchingDecoder': ('XCubeCode', '2x2x2'),
+}
+DOCUMENTED_DECODER_PARAMETERS = {'BeliefPropagationOSDDecoder': {'max_bp_iter': 1000, 'osd_order': 100}}   # else {}
+READER_SUPPLIED = ('self', 'code', 'error_model', 'error_rate')      # constructor arguments the reader fills in
+DECODERS_PROBS = ['0.1', '0.05,0.1,0.2']
 ETA_COMPANIONS = ['0.5', '10']         # finite ratios a spelling is listed with, at every list position
 ETA_TRIPLE = ('Toric2DCode', '3x3', 'BeliefPropagationOSDDecoder')
 ETA_PROB = '0.1'
@@ -199,6 +231,11 @@ QUICK_TRIPLES = [
 ]
 BOUNDS['quick']['generate']['triples'] = [list(t) for t in QUICK_TRIPLES]
 for _t in ('quick', 'thorough'):
+    BOUNDS[_t]['sizes'] = {'size_lists': SIZE_LISTS, 'decoder': SIZES_DECODER, 'eta': SIZES_ETAS, 'prob': ETA_PROB,
+                           'bias': ['Z'], 'method': METHODS}
+    BOUNDS[_t]['decoders'] = {'smallest_code': {k: list(v) for k, v in DECODER_SMALLEST.items()},
+                              'documented_parameters': DOCUMENTED_DECODER_PARAMETERS, 'prob': DECODERS_PROBS,
+                              'eta': SIZES_ETAS, 'bias': ['Z'], 'method': METHODS}
     BOUNDS[_t]['eta'] = {'spellings': ETA_SPELLINGS, 'companions': ETA_COMPANIONS, 'triple': list(ETA_TRIPLE),
                          'prob': ETA_PROB, 'bias': BIASES,
                          'methods': ['direct'] if _t == 'quick' else METHODS,
@@ -304,6 +341,13 @@ def cases(tier, seed):
         for bias in BIASES:
             for family in ETA_SPELLINGS:
                 eta_cases.append({'part': 'eta', 'bias': bias, 'family': family, 'method': method})
+    spec_cases = []
+    for dec in registered:
+        if dec in DECODER_SMALLEST:
+            spec_cases.append({'part': 'decoders', 'decoder': dec})
+    for cls in SIZE_LISTS:
+        for method in METHODS:
+            spec_cases.append({'part': 'sizes', 'cls': cls, 'method': method})
     rng = _range_cases(steps)
     # simplest first: the coarsest range step, the simplest command lines of either method, then the rest
     head = [c for c in rng if c['step'] == '0.1']
@@ -314,7 +358,7 @@ def cases(tier, seed):
     rest_gen = [c for c in gen if c not in head]
     # slow decoder cases early so that the pool stays balanced
     rest_gen.sort(key=lambda c: 0 if c['decoder'] == 'MemoryBeliefPropagationDecoder' else 1)
-    return head + rest_rng + eta_cases + rest_gen + hist
+    return head + rest_rng + spec_cases + eta_cases + rest_gen + hist
 
 
 # --------------------------------------------------------------------------- oracle helpers
@@ -369,6 +413,61 @@ def _raw_directions(path):
     return out
 
 
+def _spec_problems(path, name, cls, dec, size_strings, dim):
+    """The written specification judged without building anything: every ranges block lists exactly the requested
+    sizes (L_x, L_y[, L_z] with the constructor convention missing length = L_x) and decoder parameters that are
+    constructor arguments of the decoder class and equal the documented defaults for that class."""
+    import inspect
+    from panqec.config import DECODERS
+    problems = []
+    with open(path) as f:
+        data = json.load(f)
+    want = []
+    for sz in size_strings:
+        c = [int(x) for x in sz.split('x')]
+        full = [c[0], c[1] if len(c) >= 2 else c[0], c[2] if len(c) >= 3 else c[0]]
+        want.append(tuple(full[:dim]))
+    ranges = data.get('ranges', [])
+    for block in (ranges if isinstance(ranges, list) else [ranges]):
+        # sizes
+        params = block.get('code', {}).get('parameters')
+        plist = params if isinstance(params, list) and (not params or isinstance(params[0], (dict, list))) \
+            else [params]
+        got = []
+        for prm in plist:
+            if isinstance(prm, dict) and 'L_x' in prm:
+                full = [prm.get('L_x'), prm.get('L_y', prm.get('L_x')), prm.get('L_z', prm.get('L_x'))]
+            elif isinstance(prm, list) and prm:
+                full = list(prm) + [prm[0]] * (3 - len(prm))
+            else:
+                got = None          # a layout this walk does not know: left to the read-back comparison
+                break
+            got.append(tuple(full[:dim]))
+        if got is not None and sorted(map(repr, got)) != sorted(map(repr, want)):
+            problems.append(('spec-size-wrong', {'file': name, 'written': [list(g) for g in got],
+                                                 'requested': [list(w) for w in want],
+                                                 'written_parameters': plist[:6]}))
+        # decoder parameters
+        dblock = block.get('decoder', {})
+        dparams = dblock.get('parameters', {})
+        klass = DECODERS.get(dblock.get('name', dec))
+        for prm in (dparams if isinstance(dparams, list) else [dparams]):
+            if not isinstance(prm, dict) or klass is None:
+                continue
+            sig = inspect.signature(klass.__init__).parameters
+            open_kwargs = any(v.kind is inspect.Parameter.VAR_KEYWORD for v in sig.values())
+            bad = [k for k in prm if k in READER_SUPPLIED or (k not in sig and not open_kwargs)]
+            if bad:
+                problems.append(('decoder-parameters-rejected', {
+                    'file': name, 'decoder': dblock.get('name'), 'written': prm, 'not_constructor_arguments': bad,
+                    'constructor': [k for k in sig if k not in READER_SUPPLIED]}))
+            if prm != DOCUMENTED_DECODER_PARAMETERS.get(dec, {}):
+                problems.append(('decoder-parameters-wrong', {
+                    'file': name, 'decoder': dblock.get('name'), 'written': prm,
+                    'documented': DOCUMENTED_DECODER_PARAMETERS.get(dec, {})}))
+    return problems
+
+
 def _digest(obj):
     return hashlib.sha1(json.dumps(obj, sort_keys=True).encode()).hexdigest()[:10]
 
@@ -417,6 +516,14 @@ def _one_invocation(case, eta, prob, label, dim):
         files = sorted(os.listdir(input_dir)) if os.path.isdir(input_dir) else []
         info['files'] = len(files)
         info['file_names'] = files
+
+        # ---- the written specification itself (nothing is built)
+        for name in files:
+            try:
+                problems += _spec_problems(os.path.join(input_dir, name), name, cls, dec, sizes.split(','), dim)
+            except (ValueError, KeyError, TypeError, AttributeError) as exc:
+                problems.append(('spec-unparsable', {'file': name, 'exc': type(exc).__name__,
+                                                     'message': str(exc)[:200]}))
 
         # ---- read back with the real reader
         sims = []
@@ -469,7 +576,7 @@ def _one_invocation(case, eta, prob, label, dim):
 
         # ---- the noise model read back must be usable on the code it is paired with
         tried = set()
-        for name, s in sims:
+        for name, s in ([] if case.get('light') else sims):
             pair = (id(s.error_model), id(s.code))
             if pair in tried:
                 continue
@@ -876,7 +983,73 @@ def _eval_direction_fn(case):
     return res
 
 
+def _run_invocations(part, todo, key_extra):
+    """todo: [(sub-case, eta, prob)], each judged by _one_invocation; at most one violation per kind."""
+    res = {'evals': 0, 'nontrivial': 0, 'violations': [], 'samples': [], 'outcomes': [],
+           'extra': {part + '_invocations': 0, part + '_problems_total': 0}}
+    outcomes = set()
+    emitted = set()
+    for sub, eta, prob in todo:
+        dim = 2 if sub['cls'] in DIM2 else 3
+        problems, info = _one_invocation(sub, eta, prob, None, dim)
+        res['evals'] += 1
+        res['nontrivial'] += int(info['files'] > 0)
+        res['extra'][part + '_invocations'] += 1
+        res['extra'][part + '_problems_total'] += len(problems)
+        outcomes.add('%s|f%d|s%d|%s' % (part[0], info['files'], info['sims'],
+                                        ','.join(sorted({k for k, _ in problems})) or 'ok'))
+        by_kind = {}
+        for kind, detail in problems:
+            res['extra']['n_' + kind] = res['extra'].get('n_' + kind, 0) + 1
+            by_kind.setdefault(kind, []).append(detail)
+        for kind, details in by_kind.items():
+            if kind in emitted or len(res['violations']) >= 5:
+                continue
+            emitted.add(kind)
+            key = {'part': part, 'kind': kind, 'method': sub['method'], 'n_eta': eta.count(',') + 1,
+                   'cls': sub['cls'], 'sizes': sub['sizes'], 'decoder': sub['decoder'], 'bias': sub['bias'],
+                   'eta': eta, 'prob': prob}
+            key.update(key_extra)
+            if kind == 'unreadable-input':
+                key['exc'] = details[0].get('exc')
+            res['violations'].append({'key': key, 'detail': dict(
+                details[0], occurrences_in_this_invocation=len(details), files=info.get('file_names'),
+                simulations_read=info['sims'])})
+        if len(res['samples']) < 2:
+            res['samples'].append({'part': part, 'cls': sub['cls'], 'sizes': sub['sizes'], 'decoder': sub['decoder'],
+                                   'method': sub['method'], 'eta': eta, 'prob': prob, 'files': info.get('file_names'),
+                                   'simulations': info['sims']})
+    res['outcomes'] = sorted(outcomes)[:50]
+    return res
+
+
+def _eval_sizes(case):
+    todo = []
+    # simplest first: single sizes before lists, small before large
+    for sizes in sorted(SIZE_LISTS[case['cls']], key=lambda z: (z.count(','), len(z))):
+        for eta in SIZES_ETAS:
+            todo.append(({'cls': case['cls'], 'sizes': sizes, 'decoder': SIZES_DECODER, 'method': case['method'],
+                          'deformation': None, 'bias': 'Z', 'light': True}, eta, ETA_PROB))
+    return _run_invocations('sizes', todo, {})
+
+
+def _eval_decoders(case):
+    dec = case['decoder']
+    cls, sizes = DECODER_SMALLEST[dec]
+    todo = []
+    for method in METHODS:
+        for eta in SIZES_ETAS:
+            for prob in DECODERS_PROBS:
+                todo.append(({'cls': cls, 'sizes': sizes, 'decoder': dec, 'method': method, 'deformation': None,
+                              'bias': 'Z'}, eta, prob))
+    return _run_invocations('decoders', todo, {})
+
+
 def eval_case(case):
+    if case['part'] == 'sizes':
+        return _eval_sizes(case)
+    if case['part'] == 'decoders':
+        return _eval_decoders(case)
     if case['part'] == 'history':
         return _eval_history(case)
     if case['part'] == 'eta':
